@@ -27,6 +27,7 @@ static LAYOUT_STATE: AtomicI64 = AtomicI64::new(-1);
 static PROD_NT: RwLock<Vec<usize>> = RwLock::new(Vec::new());
 static PROGRESS: AtomicU64 = AtomicU64::new(0);
 static SPPF: AtomicBool = AtomicBool::new(false);
+static NOFOREST: AtomicBool = AtomicBool::new(false);
 
 pub const NREC: usize = 128;
 
@@ -537,6 +538,10 @@ pub fn run_glr(def: &'static Def, recs: &'static [Rec; NREC], cfg: &RunCfg, inpu
         > = GlrParser::new(def, cfg.partial, cfg.has_layout, lexer);
         match parser.parse(input) {
             Ok(f) => {
+                if NOFOREST.load(Ordering::SeqCst) {
+                    // C15: only whether parse() returns; the forest is not inspected
+                    return "FOREST ? ?".to_string();
+                }
                 let mut s = forest_str(input, &f);
                 if SPPF.load(Ordering::SeqCst) {
                     s.push_str(" || SPPF ");
@@ -604,6 +609,7 @@ struct Case {
     lexer: String,
     want_match: bool,
     sppf: bool,
+    noforest: bool,
     grammar: String,
     inputs: Vec<String>,
 }
@@ -631,6 +637,7 @@ fn parse_cases(text: &str) -> Vec<Case> {
                     lexer: "default".into(),
                     want_match: false,
                     sppf: false,
+                    noforest: false,
                     grammar: String::new(),
                     inputs: vec![],
                 }
@@ -652,6 +659,7 @@ fn parse_cases(text: &str) -> Vec<Case> {
                         "fancy" => c.fancy = b,
                         "match" => c.want_match = b,
                         "sppf" => c.sppf = b,
+                        "noforest" => c.noforest = b,
                         _ => panic!("flag {k}"),
                     }
                 }
@@ -750,7 +758,9 @@ fn main() {
             buf.push_str(&dump_text);
         }
         let ok = dump_text.starts_with("OK\n");
-        if ok && c.run != "NONE" {
+        // the compiler rejects a grammar with conflicts in LR mode: there is no parser to run
+        let rejected = c.algo == "LR" && !dump_text.contains("\nCONFLICTS 0\n");
+        if ok && c.run != "NONE" && !rejected {
             let d = read_dump(&dump_text);
             match build_recs(&d, c.fancy) {
                 Err(e) => {
@@ -760,6 +770,7 @@ fn main() {
                 }
                 Ok(recs) => {
                     SPPF.store(c.sppf, Ordering::SeqCst);
+                    NOFOREST.store(c.noforest, Ordering::SeqCst);
                     LONGEST.store(c.lm, Ordering::SeqCst);
                     GORDER.store(c.go, Ordering::SeqCst);
                     LAYOUT_STATE.store(d.layout_state, Ordering::SeqCst);
